@@ -870,32 +870,24 @@ KNOWN_FILE = os.environ.get("IMB_KNOWN_FINDINGS", os.path.join(VERIF, "known_fin
 
 
 def enum_values(prefix):
-    """enumerator values of IMB_CIPHER_* / IMB_AUTH_* from the header, computed by the compiler"""
+    """enumerator values of IMB_CIPHER_MODE / IMB_HASH_ALG (names from the typedef text, values from the compiler)"""
+    typedef = {"IMB_CIPHER_": "IMB_CIPHER_MODE", "IMB_AUTH_": "IMB_HASH_ALG"}[prefix]
     hdr = open(os.path.join(REPO, "lib", "intel-ipsec-mb.h")).read()
-    names = sorted(set(re.findall(r"\b(%s[A-Z0-9_]+)\b" % prefix, hdr)))
-    prog = ["#include <stdio.h>", "#include <intel-ipsec-mb.h>", "int main(void){"]
-    for n in names:
-        prog.append('#ifdef %s\n#else\nprintf("%s %%d\\n", (int)%s);\n#endif' % (n, n, n))
-    prog.append("return 0;}")
+    hdr = re.sub(r"/\*.*?\*/", "", hdr, flags=re.S)
+    hdr = re.sub(r"//[^\n]*", "", hdr)
+    m = re.search(r"typedef\s+enum\s*\{([^}]*)\}\s*" + typedef + r"\s*;", hdr)
+    if not m:
+        raise T1bError("enum %s not found" % typedef)
+    names = [re.match(r"\s*([A-Za-z_]\w*)", part).group(1) for part in m.group(1).split(",") if part.strip()]
+    prog = ["#include <stdio.h>", "#include <intel-ipsec-mb.h>", "int main(void){"] + \
+           ['printf("%s %%d\\n", (int)%s);' % (n, n) for n in names] + ["return 0;}"]
     os.makedirs(os.path.join(BUILD, "gen"), exist_ok=True)
     with tempfile.TemporaryDirectory(dir=os.path.join(BUILD, "gen")) as d:
         c = os.path.join(d, "e.c"); x = os.path.join(d, "e")
         open(c, "w").write("\n".join(prog))
-        p = subprocess.run(["gcc", "-DLINUX", "-I", os.path.join(REPO, "lib"), "-o", x, c], stdout=subprocess.PIPE,
-                           stderr=subprocess.PIPE, text=True)
-        if p.returncode != 0:
-            # some identifiers found textually are not enumerators (e.g. IMB_AUTH_NUM is, IMB_CIPHER_DIRECTION is a type)
-            bad = set(re.findall(r"'(%s[A-Z0-9_]+)' undeclared" % prefix, p.stderr)) | \
-                  set(re.findall(r"expected expression before '(%s[A-Z0-9_]+)'" % prefix, p.stderr))
-            if not bad:
-                raise T1bError("cannot compile the enumerator probe:\n" + p.stderr[-1500:])
-            names = [n for n in names if n not in bad]
-            prog = ["#include <stdio.h>", "#include <intel-ipsec-mb.h>", "int main(void){"] + \
-                   ['printf("%s %%d\\n", (int)%s);' % (n, n) for n in names] + ["return 0;}"]
-            open(c, "w").write("\n".join(prog))
-            run(["gcc", "-DLINUX", "-I", os.path.join(REPO, "lib"), "-o", x, c])
+        run(["gcc", "-DLINUX", "-I", os.path.join(REPO, "lib"), "-o", x, c])
         out = run([x])
-    return {l.split()[0][len(prefix):]: int(l.split()[1]) for l in out.splitlines()}
+    return {l.split()[0][len(prefix):]: int(l.split()[1]) for l in out.splitlines() if l.startswith(prefix)}
 
 
 def parse_known_c06(path=None):
